@@ -59,6 +59,8 @@ pub use nervusdb_api::{
     RelTypeId,
 };
 pub use nervusdb_query as query;
+#[cfg(luqing_studio_nervusdb_verif)]
+pub use nervusdb_api::verif_hooks;
 pub use nervusdb_storage::PAGE_SIZE;
 pub use nervusdb_storage::backup::{
     BackupHandle, BackupInfo, BackupManager, BackupManifest, BackupStatus,
